@@ -143,6 +143,13 @@ DED["C02"] = ("25 operator classes against their documented pointwise definition
               "the expression parser (makeRPN, string rewriting, precedence / associativity / parentheses), __evaluateRPN / __applyOperation "
               "dispatch, '=' handling, aggregate operators, shifts and the remaining operator classes: bounded only (unbounded string "
               "recursion is outside any contract within reach).")
+DED["C10"] = ("mapping.__distToNode: the distances from the matched point to the edge's source and target nodes are abs_curv[i] + |g[i] - p| and "
+              "abs_curv[last] - abs_curv[i+1] + |g[i+1] - p| (the edge geometry's curvilinear abscissa, proved cumulative by C17's computeAbsCurv "
+              "contract); lemma on-segment-split: for a point on segment i the two add up to abs_curv[last], the edge's planimetric length. "
+              "Callee contracts of the composition are proved under C08 (neighbourhood candidates), C20 (projection) and C09 (decoding picks one "
+              "candidate per epoch).",
+              "the matching loop of __mapOnNetwork (candidate search, radius test, unmatched flag, HMM call, several tracks per call) and the "
+              "frame on positions / timestamps are bounded only.")
 for i, b, n in [
     ("C01", "all histories of feature operations to a depth bound over a colliding name alphabet, random longer ones; run-time contract = abstract name->column map", ""),
     ("C02", "all expression trees to depth 3 over a small alphabet, random to depth 6, vectors with 0, negatives, ties, NaN; oracle = ordinary arithmetic under the documented operator table", ""),
